@@ -30,7 +30,7 @@ def mutate_cfg(r, c):
     elif kind == "element":
         i = r.randrange(len(l))
         if len(l) > 64:     # large list: the last elements, the start of the last block of 2^k, anywhere
-            i = r.choice([len(l) - 1, len(l) - 2, r.randrange(len(l)), (len(l) // 1024) * 1024, (len(l) // 512) * 512 + 1, len(l) - 1 - r.randrange(40)])
+            i = r.choice([len(l) - 1, len(l) - 2, r.randrange(len(l)), (len(l) // 1024) * 1024, min(len(l) - 1, (len(l) // 512) * 512 + 1), len(l) - 1 - r.randrange(40)])
         l[i] = l[i] + r.choice([1, 2, -1 if l[i] > 0 else 1]) if field == "windows" else l[i] + "x"
     else:
         if len(l) > 1:
@@ -70,7 +70,7 @@ def gen_history(r, large=False):
                 kind = r.choice(["element", "order"])
                 l = c["genes"]
                 if kind == "element":
-                    i = r.choice([len(l) - 1, len(l) - 2, r.randrange(len(l)), (len(l) // 1024) * 1024, (len(l) // 512) * 512 + 1, len(l) - 1 - r.randrange(40)])
+                    i = r.choice([len(l) - 1, len(l) - 2, r.randrange(len(l)), (len(l) // 1024) * 1024, min(len(l) - 1, (len(l) // 512) * 512 + 1), len(l) - 1 - r.randrange(40)])
                     l[i] = l[i] + "x"
                 else:
                     i = len(l) - 2 - r.randrange(20); l[i], l[i + 1] = l[i + 1], l[i]
